@@ -122,6 +122,10 @@ def handle_dress(c):
     circuit = stim.Circuit(c['text'])
     s = make_settings(c['settings'])
     qmap = {int(i): QubitIDObj(n) for i, n in c['map']}
+    if c.get('warm') and len(qmap) >= 1:
+        keys = list(qmap)
+        rotated = {k: qmap[keys[(i + 1) % len(keys)]] for i, k in enumerate(keys)}
+        apply_noise(circuit, rotated, noise_settings=s)          # result discarded
     noisy = apply_noise(circuit, qmap, noise_settings=s)
     flat = circuit.flattened()
     wn = noisy.without_noise()
